@@ -286,6 +286,7 @@ int cmd_run1(Args const& a)
 	}
 	Ctx ctx;
 	ctx.tr.keep = a.has("trace");
+	ctx.tr.live = a.has("live");
 	ctx.verbose = a.has("verbose");
 	try { e->run(plan, ctx); }
 	catch (HarnessError const& he)
